@@ -16,9 +16,31 @@ def _obj(a):
     return _np.asarray(a, dtype=object)
 
 
+_CMP_UFUNCS = ('greater', 'greater_equal', 'less', 'less_equal', 'equal', 'not_equal', 'isnan', 'isfinite', 'logical_not',
+               'logical_and', 'logical_or')
+
+
+def _boolify(r):
+    """comparison results on all-concrete object arrays become real bool arrays (usable as masks)"""
+    if isinstance(r, _np.ndarray) and r.dtype == object and r.size and all(isinstance(v, (bool, _np.bool_)) for v in r.flat):
+        return _np.asarray(r, dtype=bool).view(_np.ndarray)
+    return r
+
+
 class FArr(_np.ndarray):
     """object array standing for a float64 array allocated by instrumented code: element
     assignment follows float-array rules (a sequence cannot be stored in one element)"""
+
+    def __array_ufunc__(self, ufunc, method, *inputs, **kw):
+        ins = [i.view(_np.ndarray) if isinstance(i, FArr) else i for i in inputs]
+        if 'out' in kw:
+            kw['out'] = tuple(o.view(_np.ndarray) if isinstance(o, FArr) else o for o in kw['out'])
+        r = getattr(ufunc, method)(*ins, **kw)
+        if ufunc.__name__ in _CMP_UFUNCS:
+            return _boolify(r)
+        if isinstance(r, _np.ndarray) and r.dtype == object:
+            return r.view(FArr)
+        return r
 
     def __setitem__(self, idx, val):
         if isinstance(val, (list, tuple)) or (isinstance(val, _np.ndarray) and val.ndim > 0):
